@@ -106,12 +106,14 @@ def cases(tier, seed):
         out.append({"part": "late-dup", "P": 2 if tier == "quick" else 3, "range": [lo, lo + 10]})
     # responses delivered inside the send call by the requesting thread itself, two requesting threads (no bus lock in
     # between: the networks are wired by send_message -> notify): two threads are inside Network.notify at once
-    for scope, P, step, top in (("network", 2, 6, 96), ("wide", 1, 40, 1200)):
-        if tier == "thorough" and scope == "wide":
-            P = 2
-            step, top = 8, 1200
-        for lo in range(0, top, step):
-            out.append({"part": "inline-threads", "scope": scope, "P": P, "range": [lo, lo + step]})
+    # (only the first thread's points can be preempted by the bound, so the partition is fine there and coarse after)
+    for lo in range(0, 32):
+        out.append({"part": "inline-threads", "scope": "network", "P": 2 if tier == "quick" else 3, "range": [lo, lo + 1]})
+    out.append({"part": "inline-threads", "scope": "network", "P": 2 if tier == "quick" else 3, "range": [32, 100000]})
+    wide_step = 12 if tier == "quick" else 1
+    for lo in range(0, 240, wide_step):
+        out.append({"part": "inline-threads", "scope": "wide", "P": 1 if tier == "quick" else 2, "range": [lo, lo + wide_step]})
+    out.append({"part": "inline-threads", "scope": "wide", "P": 1 if tier == "quick" else 2, "range": [240, 100000]})
     # own-the-nondeterminism cross-check: the same harness with every source line of canopen as a scheduling point
     # (shared state the attribute-level points do not see, e.g. a buffer hoisted to module scope)
     if tier == "quick":
